@@ -56,7 +56,7 @@ Step(ev, s) ==
          ELSE IF ev.noread THEN { s }
          ELSE IF ev.r THEN IF ev.b = PStream(x.pgot, Len(ev.b)) /\ x.pgot + Len(ev.b) <= x.pin /\ Len(ev.b) > 0
                            THEN Upd(s, c, [x EXCEPT !.pgot = @ + Len(ev.b)]) ELSE {}
-         ELSE Upd(s, c, [x EXCEPT !.closing = x.closing \/ x.pclosed])
+         ELSE Upd(s, c, [x EXCEPT !.closing = x.closing \/ x.pclosed \/ ev.peek \in {0, -2}])
     [] ev.op = "onClosed" -> IF x.alive /\ x.closing /\ NoOwed(s) THEN { s } ELSE {}
     [] ev.op \in {"suspend", "resume"} ->
          IF x.alive /\ NoOwed(s) /\ ev.susp = (ev.op = "suspend") /\ (x.broken \/ ev.sb = x.acc - x.wire) THEN Upd(s, c, [x EXCEPT !.susp = ev.susp]) ELSE {}
